@@ -717,6 +717,12 @@ package rewriter
 //@   ensures[decision] res != nil && isLast && children != nil && BOwner(children) == kindFor && BLen(children) > 0 ==> BKind(children, BLen(children) - 1) != kindSwitch
 //@   modifies BLen(children), BKLen(children), BStmt(children), BKind(children), BChecked(children), BFrozen(children)
 
+// else { if … } is printed as else if …: only when the if statement is *all* the else block holds - nothing of a branch is dropped (C01, C05)
+//@ closure yieldRewriter.rewriteIfStmt#0 as unwrapIf (block) (res)
+//@   ensures[absent] block == nil ==> same(res, nil)
+//@   ensures[whole-or-sole] block != nil ==> same(res, iface(block, BlockStmt))
+//@        || (len(block.List) == 1 && isa(block.List[0], IfStmt) && same(res, block.List[0]))
+
 //@ func (r *yieldRewriter) rewriteIfStmt(stmt, children)
 //@   reveal wf-ast
 //@   ghost isa(stmt.Else, BlockStmt) && SupList(as(stmt.Else, BlockStmt).List) ==> Sup(stmt.Else)
@@ -953,11 +959,16 @@ package rewriter
 
 //@ func stableCallee(ctx, lit) (ok)
 //@   requires EtaShape(lit)      -- guaranteed by the matcher pattern the callback is registered for (assumed contract of go-matcher)
+//@   requires WfExpr(as(as(lit.Body.List[0], ReturnStmt).Results[0], CallExpr).Fun)      -- go/parser builds no typed-nil nodes
 //@   ensures[declared-func] ok ==> IsDeclaredFunc(calleeOf(as(as(lit.Body.List[0], ReturnStmt).Results[0], CallExpr)))
 //@   -- D21: a generic function is a value only when explicitly instantiated
+//@   -- D35: ... and with *all* of its type arguments (conv[string] of conv[R, A any] cannot infer A)
 //@   ensures[instantiated] ok ==> !IsGenericFuncObj(calleeOf(as(as(lit.Body.List[0], ReturnStmt).Results[0], CallExpr)))
-//@        || isa(as(as(lit.Body.List[0], ReturnStmt).Results[0], CallExpr).Fun, IndexExpr)
-//@        || isa(as(as(lit.Body.List[0], ReturnStmt).Results[0], CallExpr).Fun, IndexListExpr)
+//@        || (isa(as(as(lit.Body.List[0], ReturnStmt).Results[0], CallExpr).Fun, IndexExpr)
+//@             && tplLen(sigTParams(ptr(funcType(ptr(calleeOf(as(as(lit.Body.List[0], ReturnStmt).Results[0], CallExpr))))))) == 1)
+//@        || (isa(as(as(lit.Body.List[0], ReturnStmt).Results[0], CallExpr).Fun, IndexListExpr)
+//@             && len(as(as(as(lit.Body.List[0], ReturnStmt).Results[0], CallExpr).Fun, IndexListExpr).Indices)
+//@                  == tplLen(sigTParams(ptr(funcType(ptr(calleeOf(as(as(lit.Body.List[0], ReturnStmt).Results[0], CallExpr))))))))
 //@   -- D6 (method value): f in `func() T { return s.m() }` -> `s.m` binds the receiver when the closure is created, not when it is called
 //@   ensures[stable-receiver] ok ==> !BindsReceiverEarly(as(as(lit.Body.List[0], ReturnStmt).Results[0], CallExpr).Fun)
 //@   -- D24: f in `func(x T) R { return x.m(x) }` depends on the literal's own parameter: `x.m` outside the literal does not even compile
